@@ -124,7 +124,11 @@ func c06Dests() []c06Dest {
 	return d
 }
 
-var c06Positions = []string{"top", "read", "field", "ptrfield", "elem", "mapval", "ptr", "ptrptr", "viaref", "manyreader"}
+var c06Positions = []string{"top", "read", "field", "ptrfield", "elem", "mapval", "ptr", "ptrptr", "viaref", "manyreader", "longlist"}
+
+// position longlist: this many copies in one list - more than the decoder pre-allocates (4096) and not a
+// power-of-two multiple of it, so the slice grows in steps and has to end at exactly this length
+const c06Long = 4100
 
 const c06Many = 40 // position manyreader: this many copies of the form in one list, read through a reader in small pieces
 
@@ -157,6 +161,8 @@ func c06Render(body string, pos string) []byte {
 		pre, post, base = "m2{ua", "ubr1;}", 1
 	case "manyreader":
 		return []byte(fmt.Sprintf("a%d{%s}", c06Many, strings.Repeat(body, c06Many)))
+	case "longlist":
+		return []byte(fmt.Sprintf("a%d{%s}", c06Long, strings.Repeat(body, c06Long)))
 	}
 	out := body
 	for k := 1; k <= 3; k++ {
@@ -259,7 +265,7 @@ func c06One(t *tr.Writer, form c06Form, dest c06Dest, pos string) {
 		target = reflect.PtrTo(dest.T)
 	case "ptrptr":
 		target = reflect.PtrTo(reflect.PtrTo(dest.T))
-	case "manyreader":
+	case "manyreader", "longlist":
 		// (forms with references or class definitions cannot simply be repeated)
 		if strings.Contains(form.Body, "%R") || strings.Contains(form.Body, "c") && strings.Contains(form.Body, "o0{") {
 			return
@@ -324,6 +330,21 @@ func c06One(t *tr.Writer, form c06Form, dest c06Dest, pos string) {
 			if got.Len() == 1 {
 				got = got.Index(0)
 			} else {
+				got = reflect.Value{}
+			}
+		case "longlist":
+			// exactly c06Long elements, and the ones around the growth steps like the first
+			if got.Len() == c06Long {
+				first := fmt.Sprintf("%#v", fmtx.AbsValue(got.Index(0)))
+				pick := got.Index(0)
+				for _, i := range []int{1, 4094, 4095, 4096, 4097, c06Long - 1} {
+					if fmt.Sprintf("%#v", fmtx.AbsValue(got.Index(i))) != first {
+						pick = got.Index(i)
+						break
+					}
+				}
+				got = pick
+			} else if errs == "none" {
 				got = reflect.Value{}
 			}
 		case "manyreader":
